@@ -15,10 +15,13 @@ fn strip_ref(ex: &Expr) -> &Expr {
 }
 
 /// a place: variable followed by a field path
-struct Place {
+#[derive(Clone)]
+pub struct Place {
     root: String,      // rust name
     fields: Vec<String>,
     ty: Ty,
+    /// the place is element `index` (a Lean `Nat` term) of the list at root.fields
+    index: Option<String>,
 }
 
 impl<'w> Ctx<'w> {
@@ -26,11 +29,17 @@ impl<'w> Ctx<'w> {
         match strip_ref(ex) {
             Expr::Path(p) if p.path.segments.len() == 1 => {
                 let n = p.path.segments[0].ident.to_string();
+                if let Some(pl) = self.elems.get(&n) {
+                    return Some(pl.clone());
+                }
                 let v = self.lookup(&n)?;
-                Some(Place { root: n, fields: vec![], ty: v.ty })
+                Some(Place { root: n, fields: vec![], ty: v.ty, index: None })
             }
             Expr::Field(f) => {
                 let mut base = self.place_of(&f.base)?;
+                if base.index.is_some() {
+                    return None;
+                }
                 let fname = match &f.member {
                     Member::Named(i) => i.to_string(),
                     Member::Unnamed(_) => return None,
@@ -52,11 +61,21 @@ impl<'w> Ctx<'w> {
         for f in &p.fields {
             s = format!("{}.{}", s, lean_ident(f));
         }
+        if let Some(i) = &p.index {
+            s = format!("({}[{}]!)", s, i);
+        }
         s
     }
     /// the statement that stores `val` (a pure Lean term) into the place
     fn place_write(&self, p: &Place, val: &str) -> String {
         let root = self.lookup(&p.root).map(|v| v.lean).unwrap_or(lean_ident(&p.root));
+        if let Some(i) = &p.index {
+            // element of a list: replace it in the list, then store the list
+            let mut q = p.clone();
+            q.index = None;
+            let list = self.place_read(&q);
+            return self.place_write(&q, &format!("({}.set {} {})", list, paren(i), paren(val)));
+        }
         if p.fields.is_empty() {
             return format!("{} := {}", root, val);
         }
@@ -127,6 +146,9 @@ impl<'w> Ctx<'w> {
             Expr::Path(p) => {
                 let s = path_str(&p.path);
                 if p.path.segments.len() == 1 {
+                    if let Some(pl) = self.elems.get(&s).cloned() {
+                        return Ok(e(self.place_read(&pl), pl.ty.clone()));
+                    }
                     if let Some(v) = self.lookup(&s) {
                         return Ok(e(v.lean, v.ty));
                     }
@@ -303,6 +325,27 @@ impl<'w> Ctx<'w> {
                 Stmt::Expr(x, None) => self.expr(x),
                 _ => Err("unsafe block".into()),
             },
+            Expr::Macro(m) if m.mac.path.is_ident("vec") => {
+                // vec![a, b, ..]  /  vec![x; n]
+                let toks = m.mac.tokens.clone();
+                if let Ok(rep) = syn::parse2::<syn::ExprRepeat>(quote::quote!([#toks])) {
+                    let v = self.expr(&rep.expr)?;
+                    let n = self.expr(&rep.len)?;
+                    self.unify(&n.ty, &Ty::U(64))?;
+                    return Ok(E { s: format!("(List.replicate {} {})", paren(&n.s), paren(&v.s)), ty: Ty::List(Box::new(v.ty)), eff: v.eff || n.eff });
+                }
+                let arr = syn::parse2::<syn::ExprArray>(quote::quote!([#toks])).map_err(|e| e.to_string())?;
+                let mut parts = vec![];
+                let mut ty = Ty::Any;
+                let mut eff = false;
+                for x in &arr.elems {
+                    let v = self.expr(x)?;
+                    ty = self.unify(&ty, &v.ty)?;
+                    eff |= v.eff;
+                    parts.push(v.s);
+                }
+                Ok(E { s: format!("[{}]", parts.join(", ")), ty: Ty::List(Box::new(ty)), eff })
+            }
             Expr::Macro(m) if m.mac.path.is_ident("unreachable") => Ok(e("(← throw (Fail.panic \"unreachable\"))", Ty::Unit)),
             other => Err(format!("expression `{}` is outside the subset", short(&other.to_token_stream().to_string()))),
         }
@@ -461,6 +504,8 @@ impl<'w> Ctx<'w> {
                 let b = self.expr(&c.args[1])?;
                 Ok(E { s: format!("({}, {})", a.s, b.s), ty: Ty::Tuple(vec![a.ty, b.ty]), eff: a.eff || b.eff })
             }
+            "Vec::new" => Ok(e("[]", Ty::Any)),
+            "CountWrite::new" if self.generics.get("CountWrite") == Some(&Ty::Sink) => self.expr(&c.args[0]),
             "compress" => {
                 // `compress(codec, level, data)?` — external (a parameter of the generated module)
                 if c.args.len() != 3 { return Err("compress arity".into()); }
@@ -642,6 +687,16 @@ impl<'w> Ctx<'w> {
                 }
             }
         }
+        // `head.is_empty()` on the front part of a list walked with `split_last_mut`
+        if let Expr::Path(rp) = strip_ref(&m.receiver) {
+            if let Some((_, lo, hi)) = self.heads.get(&path_str(&rp.path)).cloned() {
+                return match name.as_str() {
+                    "is_empty" => Ok(E { s: format!("(decide ({} ≤ {}))", hi, lo), ty: Ty::Bool, eff: false }),
+                    "len" => Ok(E { s: format!("({} - {})", hi, lo), ty: Ty::U(64), eff: false }),
+                    o => Err(format!("`{}` on a `split_last_mut` head", o)),
+                };
+            }
+        }
         // user methods on self / translated structs
         if let Some(p) = self.place_of(&m.receiver) {
             if let Ty::Named(sn) = self.resolve(&p.ty) {
@@ -787,6 +842,13 @@ impl<'w> Ctx<'w> {
                     let w = self.place_write(&p, &s2);
                     self.pre.push(w);
                     return Ok(E { s: format!("(← liftIo {})", r), ty: Ty::Res(Box::new(Ty::U(n * 8))), eff: true });
+                }
+                (Ty::Sink, "count") => {
+                    // `CountWrite::count()` over an all-accepting sink: the bytes written so far (SrcTie.CountWrite)
+                    return Ok(E { s: format!("{}.length", cur), ty: Ty::U(64), eff: false });
+                }
+                (Ty::Sink, "into_inner") => {
+                    return Ok(E { s: cur.clone(), ty: Ty::Res(Box::new(Ty::Sink)), eff: false });
                 }
                 (Ty::Sink, "write_all") => {
                     let a = self.expr(args[0])?;
